@@ -234,7 +234,9 @@ def handleRun (args : List String) : Verdict :=
       if near then some ({ agree := true, propOk := true, msg := "", tag := "erun:near-limit" } : Verdict) else
       match r3.tail with
       | "ERR" :: kind :: _ =>
-        let ok := modelErr && (kind == "halfbox") == modelHalf
+        -- a mapping definition the loader refuses (d coefficient on a zero weight, count mismatch) fails before any frame is read
+        let defErr := defs.any fun d => match initWeights d.idx.length d.ws d.ds with | .error _ => true | .ok _ => false
+        let ok := if defErr then kind != "halfbox" else (modelErr && (kind == "halfbox") == modelHalf)
         some ({ agree := ok, propOk := ok, msg := s!"csg_map failed ({kind}) but the model {if modelErr then "fails differently" else "maps every bead: nothing lies beyond half the shortest box height"}", tag := tag } : Verdict)
       | "OK" :: nfo :: r4 =>
         let nfOut ← nfo.toNat?
